@@ -156,7 +156,11 @@ func run(c Case, k *ev.Case) *ev.Failure {
 	env.SetHangLimit(10 * time.Second)
 	defer sim.Call(5*time.Second, func() { env.Do(999, 0, scn.Op{Kind: "conn-close", CtxMs: 1000}) })
 	hist := func() any {
-		return map[string]any{"calls": scn.Summary(env.Records()), "ledger": scn.LedgerSummary(b.Ledger(), 200), "events": fmt.Sprintf("%+v", env.Events.Snapshot())}
+		var att []string
+		for _, a := range w.Attempts() {
+			att = append(att, fmt.Sprintf("#%d t=%dus failed=%v", a.N, a.T, a.Failed))
+		}
+		return map[string]any{"calls": scn.Summary(env.Records()), "ledger": scn.LedgerSummary(b.Ledger(), 200), "events": fmt.Sprintf("%+v", env.Events.Snapshot()), "dials": att}
 	}
 	// open the streams with light traffic
 	var streams []*streamRef
@@ -359,7 +363,19 @@ func run(c Case, k *ev.Case) *ev.Failure {
 					k.Label("known-call-not-resent")
 					continue
 				}
-				return ev.Failf("C05.3 request-fails", "%s issued around outage %d (context %d ms, recovery was complete well before) returned %q instead of being sent again after recovery", r.Op.Kind, r.G/1000-1, r.Op.CtxMs, r.Err).WithHistory(hist())
+				// a request may run into its own deadline when the outage (refused dials with back-off, cut handshakes, a scripted cut of
+				// the resume exchange that the client notices only through its keepalive) outlasts it: that is the context doing its job.
+				// It is a violation only if, within the request's lifetime, an established connection stayed usable long enough to
+				// carry it (an earlier version assumed "recovery is always complete well before" and raised false alarms under load).
+				if errors.Is(r.Error(), contextDeadline) {
+					t0 := env.T0.Add(r.Start)
+					if hw := healthyWindow(b, w, t0, t0.Add(time.Duration(r.Op.CtxMs)*time.Millisecond)); hw < 500*time.Millisecond {
+						ev.TimingInconclusive()
+						k.Label("request-outlived-by-outage")
+						continue
+					}
+				}
+				return ev.Failf("C05.3 request-fails", "%s issued around outage %d (context %d ms; an established connection stayed up for more than 500 ms within that time) returned %q instead of being sent again after recovery", r.Op.Kind, r.G/1000-1, r.Op.CtxMs, r.Err).WithHistory(hist())
 			}
 		case "write":
 			if r.Hung {
@@ -405,18 +421,33 @@ func run(c Case, k *ev.Case) *ev.Failure {
 			continue
 		}
 		if s.up {
-			before := chunksOf(b, s.id, final.Index)
-			r1 := env.Do(7000, 0, scn.Op{Kind: "write", Obj: s.name, N: 1, CtxMs: callCtxMs})
-			r2 := env.Do(7000, 1, scn.Op{Kind: "flush", Obj: s.name, CtxMs: callCtxMs})
-			if r1.Error() != nil || r2.Error() != nil || r1.Hung || r2.Hung {
-				return ev.Failf("C05.2 stream-not-working", "after recovery a write/flush on %s fails: %v / %v (hung %v/%v) although no closure was reported", s.name, r1.Err, r2.Err, r1.Hung, r2.Hung).WithHistory(hist())
-			}
+			// probe writes until one arrives on the connection regarded as current or on a newer one. Several probes, because that
+			// connection may itself be dying unnoticed (a scripted cut the client learns about through its keepalive only): a chunk
+			// written into it is legitimately lost on a non-reliable stream, the stream then resumes and the next probe must arrive.
+			before := chunksOfFrom(b, s.id, final.Index)
 			ok := false
-			for dl := time.Now().Add(2 * time.Second); time.Now().Before(dl); time.Sleep(time.Millisecond) {
-				if chunksOf(b, s.id, final.Index) > before {
-					ok = true
-					break
+			for probe := 0; probe < 8 && !ok; probe++ {
+				r1 := env.Do(7000, 2*probe, scn.Op{Kind: "write", Obj: s.name, N: 1, CtxMs: callCtxMs})
+				r2 := env.Do(7000, 2*probe+1, scn.Op{Kind: "flush", Obj: s.name, CtxMs: callCtxMs})
+				if r1.Error() != nil || r2.Error() != nil || r1.Hung || r2.Hung {
+					if streamReportedClosed(env, s) {
+						break // judged below
+					}
+					return ev.Failf("C05.2 stream-not-working", "after recovery a write/flush on %s fails: %v / %v (hung %v/%v) although no closure was reported", s.name, r1.Err, r2.Err, r1.Hung, r2.Hung).WithHistory(hist())
 				}
+				for dl := time.Now().Add(500 * time.Millisecond); time.Now().Before(dl); time.Sleep(time.Millisecond) {
+					if chunksOfFrom(b, s.id, final.Index) > before {
+						ok = true
+						break
+					}
+				}
+				if probe > 0 {
+					k.Label("detached-probe-repeated")
+				}
+			}
+			if !ok && streamReportedClosed(env, s) {
+				k.Label("stream-closed-during-probe")
+				continue
 			}
 			if !ok {
 				if c.Redial == "instant" && knownInstantRedial {
@@ -437,8 +468,23 @@ func run(c Case, k *ev.Case) *ev.Failure {
 					break
 				}
 			}
-			scn.FeedDownstream(final, s.alias, nil, 4242)
-			r := env.Do(7002, 0, scn.Op{Kind: "read-data", Obj: s.name, CtxMs: 2000})
+			// as for upstreams: several attempts, each on the connection that is current at that moment
+			var r *scn.Rec
+			for probe := 0; probe < 6; probe++ {
+				scn.FeedDownstream(b.CurrentInc(), s.alias, nil, 4242+uint32(probe))
+				r = env.Do(7002, probe, scn.Op{Kind: "read-data", Obj: s.name, CtxMs: 600})
+				if r.Error() == nil && !r.Hung {
+					break
+				}
+				if streamReportedClosed(env, s) {
+					break
+				}
+				k.Label("detached-probe-repeated")
+			}
+			if (r.Error() != nil || r.Hung) && streamReportedClosed(env, s) {
+				k.Label("stream-closed-during-probe")
+				continue
+			}
 			if r.Error() != nil || r.Hung {
 				if c.Redial == "instant" && knownInstantRedial {
 					ev.Excluded(1)
@@ -787,6 +833,17 @@ func resumedAnywhereAfter(b *sim.Broker, inc int, s *streamRef) bool {
 	return st != nil && st.Inc > inc && !b.Incs()[st.Inc].Link.Dead()
 }
 
+// chunksOfFrom counts the stream's chunks received on connection minInc or any later one.
+func chunksOfFrom(b *sim.Broker, id uuid.UUID, minInc int) int {
+	n := 0
+	for _, e := range b.Ledger() {
+		if e.In && e.Kind == "UpstreamChunk" && e.Inc >= minInc && e.Up != nil && e.Up.ID == id {
+			n++
+		}
+	}
+	return n
+}
+
 func chunksOf(b *sim.Broker, id uuid.UUID, inc int) int {
 	n := 0
 	for _, e := range b.Ledger() {
@@ -831,6 +888,37 @@ func gen(t *rapid.T) Case {
 		c.Outages = append(c.Outages, o)
 	}
 	return c
+}
+
+// healthyWindow: the longest time within [from, to] during which one connection was established (connect response sent) and
+// not yet dead.
+func healthyWindow(b *sim.Broker, w *sim.World, from, to time.Time) time.Duration {
+	up := map[int]time.Time{}
+	for _, e := range b.Ledger() {
+		if _, ok := e.Msg.(*message.ConnectResponse); ok && !e.In {
+			if _, seen := up[e.Inc]; !seen {
+				up[e.Inc] = b.T0.Add(time.Duration(e.T) * time.Microsecond)
+			}
+		}
+	}
+	var best time.Duration
+	for _, l := range w.Links() {
+		a, ok := up[l.Index]
+		if !ok {
+			continue
+		}
+		z := l.DeadAt()
+		if z.IsZero() || z.After(to) {
+			z = to
+		}
+		if a.Before(from) {
+			a = from
+		}
+		if d := z.Sub(a); d > best {
+			best = d
+		}
+	}
+	return best
 }
 
 // TestKnownCallNotResent is the canary of known finding C05-call-not-resent: the link dies after the call was
